@@ -5,25 +5,25 @@ NOT_CLAIMED = {}
 
 META = {
     "C18": {
-        "text": "Coq theorems C18_iff (every op sequence, every prefix), C18_snapshot (every interleaving of a request's two critical sections with concurrent stores) and C18_wait (every sequence of select arms) over the Health model; the model is tied to internal/health by differential execution through the real HTTP handler, including forced interleavings at the lock hook points.",
+        "text": "Coq theorems C18_iff (every op sequence, every prefix), C18_snapshot (every interleaving of a request's two critical sections with concurrent stores) and C18_wait (every sequence of select arms) over the Health model; the model is tied to internal/health by differential execution through the real HTTP handler, including forced interleavings at the lock hook points. C18_syncmap_methods_atomic / C18_syncmap_unsafe_calls_hold_lock: generated lock table of GenericSyncMap (one method call = one critical section).",
         "design_ref": "DESIGN.md 6/C18",
         "note": "Trusted: Coq kernel; harness; abstraction of names to numbers; one GenericSyncMap call = one critical section (checked by lock traces); wall-clock polling of WaitForReady is observed not proved.",
         "technique": "Coq proof (induction over op list) + model/implementation correspondence by vm_compute",
     },
     "C01": {
-        "text": "Coq theorem C01_identity: for every history and every scan order, each emitted (login, event) pair is justified by a processed LOGIN record of the event's session whose pid is the login's pid and by a delivered login; under the uniqueness discipline that login is the only one. Proved by a history-relative invariant (induction over operations). The model is tied to sessiontracker.go by per-step simulation: after every call of the real correlator its dumped state, writes and result must equal the model's for some scan choice.",
+        "text": "Coq theorem C01_identity: for every history and every scan order, each emitted (login, event) pair is justified by a processed LOGIN record of the event's session whose pid is the login's pid and by a delivered login; under the uniqueness discipline that login is the only one. Proved by a history-relative invariant (induction over operations). The model is tied to sessiontracker.go by per-step simulation: after every call of the real correlator its dumped state, writes and result must equal the model's for some scan choice. The statement is lifted to CONCURRENT deliveries (C01_identity_concurrent): for every thread system and every schedule, a complete execution under the correlator-wide mutex writes what the sequential correlator writes on the linearization; the mutex is a generated obligation (C01_calls_atomic). Further stages in both tiers: forced single-preemption schedules on the real correlator under the race detector judged by this property's own oracle, and the built daemon on two FIFOs (harness/daemon).",
         "design_ref": "DESIGN.md 6/C01",
         "note": "Trusted: Coq kernel; harness and state-dump accessor (overlay); abstraction of identity to login ids; time bracketing.",
         "technique": "Coq proof (history-relative invariant) + per-step model/implementation simulation by vm_compute",
     },
     "C02": {
-        "text": "Coq theorems C02_refines_machine (the correlator's outputs for a session equal those of a five-phase specification machine, by a refinement proof over all operations and states) and C02_exactly_once_in_order (at every prefix the emitted events of the session are a prefix, in processing order, of its events from the LOGIN record on, empty until both halves are known and reaching at least the disposal record afterwards). Same correspondence as C01 plus the once-in-order oracle on the implementation.",
+        "text": "Coq theorems C02_refines_machine (the correlator's outputs for a session equal those of a five-phase specification machine, by a refinement proof over all operations and states) and C02_exactly_once_in_order (at every prefix the emitted events of the session are a prefix, in processing order, of its events from the LOGIN record on, empty until both halves are known and reaching at least the disposal record afterwards). Same correspondence as C01 plus the once-in-order oracle on the implementation. The statement is lifted to CONCURRENT deliveries (C02_exactly_once_in_order_concurrent, C02_linearization_program_order): for every thread system and every schedule, a complete execution under the correlator-wide mutex writes what the sequential correlator writes on the linearization; the mutex is a generated obligation (C02_calls_atomic). Further stages in both tiers: forced single-preemption schedules on the real correlator under the race detector judged by this property's own oracle, and the built daemon on two FIFOs (harness/daemon).",
         "design_ref": "DESIGN.md 6/C02",
         "note": "Trusted: as C01. Hypotheses allowed_run/keeps_run are the uniqueness and no-discard discipline, stated explicitly in Props/C02.v and shown satisfiable by examples.",
         "technique": "Coq proof (refinement to a per-session specification machine + invariant over histories) + per-step simulation",
     },
     "C04": {
-        "text": "Coq theorems C04_silence_step (for every prefix and next operation, anything written belongs to a numeric session with a processed LOGIN record and a delivered login of that record's pid; no well-formedness assumed), C04_untracked_ignored, C04_no_session. Correspondence as C01 with mixed correlated/uncorrelated histories.",
+        "text": "Coq theorems C04_silence_step (for every prefix and next operation, anything written belongs to a numeric session with a processed LOGIN record and a delivered login of that record's pid; no well-formedness assumed), C04_untracked_ignored, C04_no_session. Correspondence as C01 with mixed correlated/uncorrelated histories. The statement is lifted to CONCURRENT deliveries (C04_silence_concurrent): for every thread system and every schedule, a complete execution under the correlator-wide mutex writes what the sequential correlator writes on the linearization; the mutex is a generated obligation (C04_calls_atomic). Further stages in both tiers: forced single-preemption schedules on the real correlator under the race detector judged by this property's own oracle, and the built daemon on two FIFOs (harness/daemon).",
         "design_ref": "DESIGN.md 6/C04",
         "note": "Trusted: as C01. That aucoalesce renders ses=4294967295 as 'unset' is library behaviour exercised at parser level (C14/C15 harness), not proved.",
         "technique": "Coq proof (invariant, step form for every prefix) + per-step simulation",
@@ -41,19 +41,19 @@ META = {
         "technique": "Coq proof (arithmetic over Z + specification machine) on generated constants + per-step simulation",
     },
     "C17": {
-        "text": "Coq theorems C17_failed_password, C17_max_attempts, C17_invalid_user: for every user name without newline (spaces, ' from ', ' port ', forged fragments included), every space-free peer address and decimal port, processing the message yields exactly one failed event whose source/port are the appended ones. The regexes and dispatch table in the statements are regenerated from the source by go2v on every run (Go's own regexp/syntax parses them), so a regex edit re-opens the proof obligation. Handlers are tied by differential execution on hostile names.",
+        "text": "Coq theorems C17_failed_password, C17_max_attempts, C17_invalid_user: for every user name without newline (spaces, ' from ', ' port ', forged fragments included), every space-free peer address and decimal port, processing the message yields exactly one failed event whose source/port are the appended ones. The regexes and dispatch table in the statements are regenerated from the source by go2v on every run (Go's own regexp/syntax parses them), so a regex edit re-opens the proof obligation. Handlers are tied by differential execution on hostile names. Handlers: for 18 of the 20 handlers the hand-written model IS the interpretation of a field-source sketch that go2v regenerates from the handler's Go body on every run (C17_handlers_from_source); the public-key and invalid-certificate handlers are tied by correspondence only (C17_handlers_without_sketch).",
         "design_ref": "DESIGN.md 6/C17",
         "note": "Trusted: Coq kernel; go2v; byte-level = rune-level matching for these classes; backtracking matcher = RE2 leftmost-first for flat patterns (exercised by correspondence).",
         "technique": "Coq proof over generated regex ASTs (greedy-field lemma + marker counting) + model/implementation correspondence",
     },
     "C11": {
-        "text": "Coq theorems C11_total (every line, token, writer and hand-off outcome: no panic, no error with a working writer, at most one event, forward only with the one succeeded event written) and C11_keyword (no keyword prefix => nothing at all happens), proved over the generated dispatch table and regexes by a bound lemma on matches and case analysis over all handlers. Differential execution on arbitrary bytes, mutations of valid messages and hostile pid tokens, with recovered panics.",
+        "text": "Coq theorems C11_total (every line, token, writer and hand-off outcome: no panic, no error with a working writer, at most one event, forward only with the one succeeded event written) and C11_keyword (no keyword prefix => nothing at all happens), proved over the generated dispatch table and regexes by a bound lemma on matches and case analysis over all handlers. Differential execution on arbitrary bytes, mutations of valid messages and hostile pid tokens, with recovered panics. Handlers: for 18 of the 20 handlers the hand-written model IS the interpretation of a field-source sketch that go2v regenerates from the handler's Go body on every run (C11_handlers_from_source); the public-key and invalid-certificate handlers are tied by correspondence only (C11_handlers_without_sketch).",
         "design_ref": "DESIGN.md 6/C11",
         "note": "Trusted: as C17. Termination of Go's regexp is library behaviour. The 'verbatim substring' clause is checked by the oracle on the implementation and holds by construction in the model (captures are prefixes of suffixes of the line).",
         "technique": "Coq proof (all inputs; case analysis over generated dispatch/handlers) + correspondence on hostile inputs",
     },
     "C19": {
-        "text": "Coq theorems C19_counted (an emitted event implies exactly one counter increment with matching outcome and the right method family) and C19_no_keyword, over the generated dispatch table (which carries the switch's metric calls). Counters are read from a private Prometheus registry before/after each line in the correspondence.",
+        "text": "Coq theorems C19_counted (an emitted event implies exactly one counter increment with matching outcome and the right method family) and C19_no_keyword, over the generated dispatch table (which carries the switch's metric calls). Counters are read from a private Prometheus registry before/after each line in the correspondence. Handlers: for 18 of the 20 handlers the hand-written model IS the interpretation of a field-source sketch that go2v regenerates from the handler's Go body on every run (C19_handlers_from_source); the public-key and invalid-certificate handlers are tied by correspondence only (C19_handlers_without_sketch).",
         "design_ref": "DESIGN.md 6/C19",
         "note": "Trusted: as C17; metric calls inside three handlers are hand-modelled and tied by correspondence.",
         "technique": "Coq proof (walk of the generated dispatch table) + correspondence with counter deltas",
@@ -71,31 +71,31 @@ META = {
         "technique": "Coq proof (induction over the chunk list with the buffer invariant) + correspondence through a real FIFO",
     },
     "C05": {
-        "text": "Coq theorems over every line, token, writer behaviour and hand-off outcome: C05_forward_after_write (at most one login forwarded, only after exactly one succeeded event was written, the forwarded identity being that very event; write failure returns the error and forwards nothing; cancelled hand-off forwards nothing), C05_only_accepted_forward (only 'Accepted publickey'/'Accepted password' lines forward), C05_forward_content (pid = Atoi of the token, credential = 'unknown' or the certificate key id of the written event). Differential execution with an unbuffered logins channel records the order Encode-then-receive, pointer identity of the forwarded Source, write failure and cancellation modes.",
+        "text": "Coq theorems over every line, token, writer behaviour and hand-off outcome: C05_forward_after_write (at most one login forwarded, only after exactly one succeeded event was written, the forwarded identity being that very event; write failure returns the error and forwards nothing; cancelled hand-off forwards nothing), C05_only_accepted_forward (only 'Accepted publickey'/'Accepted password' lines forward), C05_forward_content (pid = Atoi of the token, credential = 'unknown' or the certificate key id of the written event). Differential execution with an unbuffered logins channel records the order Encode-then-receive, pointer identity of the forwarded Source, write failure and cancellation modes. Handlers: for 18 of the 20 handlers the hand-written model IS the interpretation of a field-source sketch that go2v regenerates from the handler's Go body on every run (C05_handlers_from_source); the public-key and invalid-certificate handlers are tied by correspondence only (C05_handlers_without_sketch).",
         "design_ref": "DESIGN.md 6/C05",
         "note": "Trusted: as C17. The positive direction for public-key/certificate lines rests on the correspondence + oracle (loginRE field theorem is partial, see C06). select with both arms ready is not generated.",
         "technique": "Coq proof (all inputs; generated dispatch) + correspondence with fault modes",
     },
     "C07": {
-        "text": "Coq theorems C07_sshd_framing (for every pid token without space, padding and message not starting with a space, the framed record through the syslog ingester yields exactly the processor's result for (pid, message)), C07_internal_spacing, C07_no_space_line, over the model of ParseSyslogMessage/Process (strings.Split/Join/TrimLeft/TrimSuffix). Correspondence: every C06 form is run once directly and once framed through the real SyslogIngester.Process (callback level) and must be equal; ParseSyslogMessage is compared with the model on generated strings (C12 harness). The auditd half is checked at parser level (auparse with/without newline).",
+        "text": "Coq theorems C07_sshd_framing (for every pid token without space, padding and message not starting with a space, the framed record through the syslog ingester yields exactly the processor's result for (pid, message)), C07_internal_spacing, C07_no_space_line, over the model of ParseSyslogMessage/Process (strings.Split/Join/TrimLeft/TrimSuffix). Correspondence: every C06 form is run once directly and once framed through the real SyslogIngester.Process (callback level) and must be equal; ParseSyslogMessage is compared with the model on generated strings (C12 harness). The auditd half is checked at parser level (auparse with/without newline). A further stage in both tiers feeds the built daemon through real FIFOs and requires the multiset of UserLogin events to equal the lines written (harness/daemon).",
         "design_ref": "DESIGN.md 6/C07",
         "note": "Partial: the auditd half is a contract of third-party auparse.Parse (TrimSpace) and is observed, not proved. FIFO-level delivery is C12's harness.",
         "technique": "Coq proof (list lemmas on split/join/trim) + direct-vs-framed differential execution",
     },
     "C03": {
-        "text": "Coq theorems over ALL thread systems and ALL schedules at lock-acquisition granularity: C03_linearizable (a complete execution under the correlator-wide mutex equals the sequential execution of the same calls in the order they began, which respects each thread's program order), C03_prefix_sequential (at every intermediate point too), C03_deadlock_free, C03_blocks_compose (the blocks of a call compose to the sequential step used by C01-C09), C03_calls_are_critical_sections (GENERATED from sessiontracker.go: every exported method holds one and the same mutex for its whole body), and C03_unlocked_not_linearizable (a vm_compute witness that the same decomposition without the mutex loses both halves). The implementation is explored with forced single-preemption schedules at the lock hooks under the race detector; outcomes must be sequential outcomes.",
+        "text": "Coq theorems over ALL thread systems and ALL schedules at lock-acquisition granularity: C03_linearizable (a complete execution under the correlator-wide mutex equals the sequential execution of the same calls in the order they began, which respects each thread's program order), C03_prefix_sequential (at every intermediate point too), C03_deadlock_free, C03_blocks_compose (the blocks of a call compose to the sequential step used by C01-C09), C03_calls_are_critical_sections (GENERATED from sessiontracker.go: every exported method holds one and the same mutex for its whole body), and C03_unlocked_not_linearizable (a vm_compute witness that the same decomposition without the mutex loses both halves). The implementation is explored with forced single-preemption schedules at the lock hooks under the race detector; outcomes must be sequential outcomes. C03_syncmap_methods_atomic / C03_syncmap_unsafe_calls_hold_lock (GENERATED from genericsyncmap.go and every call site: each map method is one critical section, every ...Unsafe call happens under that map's lock) justify the block granularity. The explorer runs in a child process with GORACE=halt_on_error: a crash or data race is reported with the schedule in flight as replay; event writes are schedule points too.",
         "design_ref": "DESIGN.md 6/C03",
         "note": "Trusted: Coq kernel; go2v's reading of the Lock/defer Unlock idiom; hook placement in GenericSyncMap; Go race detector for data races (observed, not proved); bounded-preemption exploration is the search, the theorem covers all schedules of the model.",
         "technique": "Coq proof (invariant over schedules; refinement blocks->step) on a generated lock table + forced-schedule exploration of the real code under -race",
     },
     "C06": {
-        "text": "One Coq theorem per supported message form (22 in Props/C06.v): for all field values in the stated domain, processing the message rendered from sshd's format string yields exactly the expected result record (one event with exactly those fields, outcome, counter label, forwarded login for accepted authentications). Proved over the GENERATED regexes and dispatch table (greedy-field lemma with three ways to exclude later split points, tail-clash argument for the seven 'User ...' forms). The accepted public-key and certificate forms are proved over a restricted domain and named _partial. Differential execution over the full generated domain (unicode names, IPv6 with zone ids, key ids with spaces/parentheses/'serial', serials to 2^64-1, paths with spaces) compares model and implementation, and the oracle compares the implementation with the event expected by construction.",
+        "text": "One Coq theorem per supported message form (22 in Props/C06.v): for all field values in the stated domain, processing the message rendered from sshd's format string yields exactly the expected result record (one event with exactly those fields, outcome, counter label, forwarded login for accepted authentications). Proved over the GENERATED regexes and dispatch table (greedy-field lemma with three ways to exclude later split points, tail-clash argument for the seven 'User ...' forms). The accepted public-key and certificate forms are proved over a restricted domain and named _partial. Differential execution over the full generated domain (unicode names, IPv6 with zone ids, key ids with spaces/parentheses/'serial', serials to 2^64-1, paths with spaces) compares model and implementation, and the oracle compares the implementation with the event expected by construction. Handlers: for 18 of the 20 handlers the hand-written model IS the interpretation of a field-source sketch that go2v regenerates from the handler's Go body on every run (C06_handlers_from_source); the public-key and invalid-certificate handlers are tied by correspondence only (C06_handlers_without_sketch).",
         "design_ref": "DESIGN.md 6/C06",
         "note": "Domains are explicit hypotheses (see the table at the top of Props/C06.v); where an earlier greedy field needs a later field to be space-free (shell; path in revoked-key forms) the wider domain is covered by correspondence + oracle only. A certificate key id that itself contains a complete ' from A port N sshX: ALG:SUM' fragment hijacks the greedy fields (Example C06_example_keyid_hijack): outside the property's stated key-id domain, recorded as an observation.",
         "technique": "Coq proof per message form over generated regex ASTs + model/implementation correspondence + by-construction oracle",
     },
     "C10": {
-        "text": "Coq theorems C10_causal (for every interleaving of the two pipelines' atomic actions in which a login is handed over only after its UserLogin was written, every UserAction entry of the output is preceded by the UserLogin of the login whose identity it carries) and C10_once (the UserAction entries of the output are exactly the correlator's emissions, each once, in order), built on the tracker invariant. The implementation is exercised at processor level: real sshd processor and real Auditd.Read concurrently on one event writer and an unbuffered channel under the race detector, every Write call recorded and required to be exactly one complete JSON line, no duplicates, causal order.",
+        "text": "Coq theorems C10_causal (for every interleaving of the two pipelines' atomic actions in which a login is handed over only after its UserLogin was written, every UserAction entry of the output is preceded by the UserLogin of the login whose identity it carries) and C10_once (the UserAction entries of the output are exactly the correlator's emissions, each once, in order), built on the tracker invariant. The implementation is exercised at processor level: real sshd processor and real Auditd.Read concurrently on one event writer and an unbuffered channel under the race detector, every Write call recorded and required to be exactly one complete JSON line, no duplicates, causal order. A further stage in both tiers runs the built daemon on two FIFOs with concurrent bursts and checks whole-JSON lines, no duplicates and login-before-action on the real events file (harness/daemon).",
         "design_ref": "DESIGN.md 6/C10",
         "note": "Partial: torn or interleaved lines cannot be exhibited by the model (one append per event); kernel O_APPEND atomicity and json.Encoder issuing one Write per Encode are observed, not proved.",
         "technique": "Coq proof (induction over runs using the tracker invariant) + concurrent differential execution with a recording writer under -race",
@@ -113,7 +113,7 @@ META = {
         "technique": "Coq proof (LTS with potential function, instantiated with a generated blocking table) + fault injection on the real workers",
     },
     "C08": {
-        "text": "Coq theorems C08_wiring (generated: the three workers run under one errgroup whose context derives from the signal context, Wait's error is returned, the FIFO checks exist, main exits via log.Fatalln), C08_rows_guarded and C08_fail_stop (from every reachable daemon state, including a full audit buffer: a worker failure cancels the group; once cancelled every fair run exits within 2K+4 rounds, with status 1 on failure). The built binary is driven with real FIFOs: every failure cause and both signals, idle and under a flood that fills the 10000-slot buffer, plus four mis-configured paths; exit within 5 s, non-zero on failure.",
+        "text": "Coq theorems C08_wiring (generated: the three workers run under one errgroup whose context derives from the signal context, Wait's error is returned, the FIFO checks exist, main exits via log.Fatalln), C08_rows_guarded and C08_fail_stop (from every reachable daemon state, including a full audit buffer: a worker failure cancels the group; once cancelled every fair run exits within 2K+4 rounds, with status 1 on failure). The built binary is driven with real FIFOs: every failure cause and both signals, idle and under a flood that fills the 10000-slot buffer, plus four mis-configured paths; exit within 5 s, non-zero on failure. Also: the events sink breaking after the login was recorded (FIFO reader gone), so that only the audit side's writes fail: single event, a batch of four released by one terminator, a stream of 40. The reassembler callbacks are part of the generated blocking table.",
         "design_ref": "DESIGN.md 6/C08-C13",
         "note": "Partial: signal delivery, exit status of log.Fatalln, kernel FIFO behaviour and 'buffer full' under load are observed on the binary, not proved; bound proved in rounds, not seconds.",
         "technique": "Coq proof (errgroup LTS over the generated table) + fault injection on the built daemon",
